@@ -228,6 +228,15 @@ class Monitor(object):
                               'KF-C08-1' if (empty and any(k.startswith('kf_c08_1') for k in self.trigger)) else None))
         if k == 'deliver':
             self.heard.setdefault(ev[2], {})[ev[1]] = ev[3]
+        # C12: a committed command whose method raises is stepped over like any other
+        if k == 'tick' and not sim.exc:
+            ap, cm = g(o, 'raftLastApplied'), g(o, 'raftCommitIndex')
+            nxt = self.entry_at(self.log_of(o), ap + 1)
+            if cm > ap and nxt is not None:
+                kind, a, b = sim.cid_of_command(nxt[0])
+                if kind == 0 and sim.cmds.get(a, {}).get('raises'):
+                    self.rec('C12', 'node %d does not get past position %d (commit index %d): the command there raises %s'
+                             % (nid, ap + 1, cm, SIM.RAISED[a % len(SIM.RAISED)].__name__))
         self.check_c06_c07(rec, sim, ev, nid, o)
         self.check_c10(rec, sim, nid, o)
         self.check_c18_c20(rec, sim, ev, nid, o)
